@@ -193,7 +193,7 @@ func buildBatchWorld(root string, days int) *batchWorld {
 	bad2.Soil.Hor = []proj.Horizon{{Tex: "SL3", Lower: 3, BD: 3, Corg: 1, CN: 10, FC: 30, WP: 12, PS: 44}, {Tex: "QQ7", Lower: 8, BD: 3, Corg: 0.5, CN: 10, FC: 28, WP: 13, PS: 42}}
 	d := func(off int) string { return proj.DateStr("DateDElong", proj.D(isoAdd(start, off))) }
 	a.Files = map[string]string{
-		"poly_p1.txt": polyHdr + "1 001 F1    99 99 0 x\n2 002 F2    99 99 0 x\n3 001 FX    99 99 0 x\n4 004 F1    99 99 0 x\n5 001 F5    99 99 0 x\n6 006 F1    99 99 0 x\nend\n",
+		"poly_p1.txt": polyHdr + "1 001 F1    04 08 0 x\n2 002 F2    99 99 0 x\n3 001 FX    99 99 0 x\n4 004 F1    99 99 0 x\n5 001 F5    99 99 0 x\n6 006 F1    99 99 0 x\nend\n",
 		"soil_p1.csv": strings.TrimSuffix(a.SoilCSV()+rows(b.SoilCSV())+rows(bad.SoilCSV())+rows(bad2.SoilCSV())+soilPadding(850), "\n"),
 		"crop_p1.txt": a.RotationTxt() + rows(b.RotationTxt()) + rows(f5.RotationTxt()),
 		"fert_p1.txt": fmt.Sprintf("Field_ID  N   Frt date\n%-9s 40 KAS  %s\n%-9s 40 KAS  %s\nend\n", "F1", d(1), "F2", d(1)),
@@ -231,6 +231,8 @@ func buildBatchWorld(root string, days int) *batchWorld {
 		"B":  "project=p1 plotNr=2 fcode=W parameter=par",
 		"C":  "project=p2 plotNr=1 fcode=W parameter=par poligonID=C",
 		"A2": "project=p1 plotNr=1 fcode=W parameter=par poligonID=X",
+		// the same plot and soil id with groundwater taken from the polygon file (min/max 4-8 dm) instead of the soil file
+		"Ag": "project=p1 plotNr=1 fcode=W parameter=par poligonID=Q GroundWaterFrom=0",
 		// the same plots with configuration and crop overrides on the line (must not reach other runs of the session)
 		"Ao": "project=p1 plotNr=1 fcode=W parameter=par poligonID=O NDeposition=60 KcFactorBareSoil=0.6 LeachingDepth=9 CropFile=PARAM.XWA c_MAXAMAX=30 c_TSUM_1=60 c_WUMAXPF=7",
 		"Bo": "project=p1 plotNr=2 fcode=W parameter=par poligonID=P Fertilization=50 ETpot=2 CropFile=PARAM.XWB c_MINTMP=1 c_KC_2=1.2",
